@@ -222,6 +222,13 @@ func (b *Built) RunWarm(input []byte, o *rtapi.RunOpts, script map[int]*rtapi.Bl
 	return b.run(input, o, script, false)
 }
 
+// RunWarmReuse is RunWarm with the option values of the previous call passed again
+// (the previous call must have had the same option set).
+func (b *Built) RunWarmReuse(input []byte, o *rtapi.RunOpts, script map[int]*rtapi.Block) *rtapi.Obs {
+	o.ReuseOpts = true
+	return b.run(input, o, script, false)
+}
+
 // Run performs one Parse call.
 func (b *Built) Run(input []byte, o *rtapi.RunOpts, script map[int]*rtapi.Block) *rtapi.Obs {
 	return b.run(input, o, script, true)
